@@ -386,6 +386,88 @@ def rule_A_KEYERR(ctx, repo, cache):
                          wh(ci, fi.node.lineno), render_path(outs[0]) if outs else [])
 
 
+def _read_terms(t):
+    return contains_term(t, lambda x: x[0] == 'ev' and x[1] in ('read', 'sqlres', 'list'))
+
+
+def rule_A_KEYERR_FOUND(ctx, repo, cache):
+    """KeyError means "nothing stored": a path of __getitem__ / pop that found something in the store (the emptiness test of what was read
+    came out non-empty, and nothing read came out empty or failed) must not end in KeyError - a stored None / 0 / '' is a value, not a miss."""
+    classes = [c for c in archive_classes(repo) if c.label in PERSISTENT]
+    for ci in classes:
+        for op in ('__getitem__', 'pop', 'get'):
+            params = None
+            key = None
+            r0 = cache.outs(ci, op)
+            if r0[0] is None:
+                continue
+            if op == 'pop':
+                va = r0[0].node.args.vararg
+                if va is not None:
+                    params = {va.arg: ('tuple', ())}
+                    key = 'nodefault'
+            fi, outs, eng = cache.outs(ci, op, params=params, key=key)
+            bad = None
+            for o in outs:
+                if not clean_path(o):
+                    continue
+                truth = o.st.facts.get('truth', {})
+                found = [t for t, b in truth.items() if b is True and t[0] in ('ev', 'call', 'sub', 'attr') and _read_terms(t)]
+                empty = [t for t, b in truth.items() if b is False and t[0] in ('ev', 'call', 'sub', 'attr') and _read_terms(t)]
+                if not found or empty:
+                    continue
+                # a test on the *value* that was read decided the outcome
+                valtests = [t for t, b in truth.items() if t[0] == 'cmp' and t[1] in ('is', '==', 'is not', '!=') and _read_terms(t[2]) and t[3] == NONE]
+                if o.kind == RAISE and o.exc == 'KeyError' and not any(e.kind == 'CAUGHT' for e in o.st.events):
+                    bad = (o, 'raises KeyError')
+                elif op == 'get' and o.kind == RETURN and valtests and not _read_terms(o.val):
+                    bad = (o, 'returns the default')
+                if bad:
+                    break
+            ctx.ob('A-KEYERR', '%s.%s found => no KeyError' % (ci.label, op), bad is None)
+            if bad is not None:
+                o, what = bad
+                ctx.fail('A-KEYERR', mq(ci, op), 'stored value treated as missing',
+                         '%s.%s %s on a path where the store returned a row / entry for the key: whether a key is present is decided from the *value* '
+                         '(e.g. `is None`), so a stored None is reported as missing and the cached result is recomputed' % (ci.label, op, what),
+                         wh(ci, o.line or fi.node.lineno), render_path(o))
+
+
+def rule_A_SQLFAIL(ctx, repo, cache):
+    """a single-key SQL operation that fails leaves the table unchanged: no exceptional exit after a successful delete / update statement of
+    the same call unless it was rolled back (the next commit - of any later write - would make the half-done operation permanent)"""
+    labels = ['sqltable_archive[sql]', 'sqltable_archive[!sql]', 'sql_archive[sql]']
+    n = 0
+    for ci in archive_classes(repo, labels):
+        for name in ('__setitem__', 'setdefault', 'pop', '__delitem__', 'popitem'):
+            fi, outs, eng = cache.outs(ci, name)
+            if fi is None:
+                continue
+            bad = None
+            for o in outs:
+                if o.kind != RAISE:
+                    continue
+                evs = o.st.events
+                n += 1
+                for i, e in enumerate(evs):
+                    if e.kind == 'SQL' and e.args[0][1] in ('delete', 'update') and e.depth >= 0:
+                        later = evs[i + 1:]
+                        failed = [x for x in later if x.kind == 'SQL!' or (x.kind.endswith('!') and x.kind != 'SQL!')]
+                        if failed and not any(x.kind == 'ROLLBACK' for x in later) and not any(x.kind == 'CAUGHT' for x in later):
+                            bad = (o, e, failed[0])
+                            break
+                if bad:
+                    break
+            ctx.ob('A-SQLFAIL', '%s.%s' % (ci.label, name), bad is None)
+            if bad is not None:
+                o, e, x = bad
+                ctx.fail('A-SQLFAIL', mq(ci, name), 'failed write after an executed %s' % e.args[0][1],
+                         '%s.%s executes a %s statement and then fails (%s at %s) without rolling it back: the old value is gone although the operation '
+                         'raised, and the next commit makes the loss permanent' % (ci.label, name, e.args[0][1], x.kind, wh(ci, x.line)), wh(ci, e.line), render_path(o))
+    if n < 4:
+        raise AnalysisError('instance count below confirmed minimum: %d exceptional exits of single-key SQL operations' % n)
+
+
 def rule_A_NOCACHE(ctx, repo, cache):
     classes = [c for c in archive_classes(repo) if c.label in PERSISTENT]
     for ci in classes:
@@ -999,3 +1081,67 @@ def rule_A_ABS(ctx, repo, cache):
                      '%s.__init__ records an absolute location on %d construction path(s) but the raw, possibly relative, argument on another (%s): a handle opened by relative '
                      'path, its state, copies and pickles then address a different directory after a chdir or in another process' % (lab, len(good), wh(ci, e.line)),
                      wh(ci, e.line), render_path(o))
+
+
+# ---------------------------------------------------------------------------------------------
+# A-FNAME: the key -> entry-name map of the directory archives
+FNAME_STEPS = {
+    'str': 'text of the key (1 and "1" alias: known, value-level)',
+    'repr': 'repr of the key',
+    'replace': "the frozen '-' -> '_' substitution (known aliasing of 'a-b' / 'a_b')",
+    'encode': 'encoding', 'decode': 'decoding', 'format': 'formatting', 'join': 'joining', 'hexdigest': 'digest',
+}
+
+
+def rule_A_FNAME(ctx, repo, cache):
+    """the name an entry is stored under is computed from the whole key by the steps in FNAME_STEPS or a *named* digest: no truncation or
+    case folding (two long keys would share an entry), nothing process dependent (builtin hash is salted per interpreter: a later session
+    would look for the entry under another name)."""
+    from .rules_keymaps import spine
+    for lab in ('dir_archive', 'hdfdir_archive[hdf]'):
+        ci = archive_classes(repo, [lab])[0]
+        fi, outs, eng = cache.outs(ci, '_fname')
+        if fi is None:
+            raise AnalysisError('anchor vanished: %s._fname' % lab)
+        a = fi.node.args.args
+        if len(a) < 2:
+            raise AnalysisError('anchor changed: %s._fname(self, key)' % lab)
+        keyp = ('param', a[1].arg)
+        n = 0
+        for o in outs:
+            if o.kind != RETURN:
+                continue
+            n += 1
+            sp = spine(o.val, lambda t: t == keyp)
+            bad = None
+            if sp is None:
+                bad = 'the entry name does not derive from the key at all'
+            else:
+                for t in sp:
+                    if t[0] == 'call':
+                        f = t[1]
+                        nm = f[2] if f[0] == 'attr' else (f[1].split('.')[-1] if f[0] == 'lib' else None)
+                        if f[0] == 'lib' and f[1].endswith('crypto.hash'):
+                            alg = t[2][1] if len(t[2]) > 1 else None
+                            for k in t[3]:
+                                if k[0] == 'kw' and k[1] == 'algorithm':
+                                    alg = k[2]
+                            if not (alg is not None and is_const(alg) and isinstance(alg[1], str)):
+                                bad = 'a digest without a named algorithm falls back to the builtin hash, which is salted per interpreter process'
+                        elif f == ('lib', 'hash') or nm in ('id', 'getpid', 'random'):
+                            bad = 'the builtin %s is process dependent: another session would look for the entry under a different name' % nm
+                        elif nm not in FNAME_STEPS:
+                            bad = 'the step %s() between the key and the entry name is not known to keep distinct keys apart' % nm
+                    elif t[0] == 'sub':
+                        bad = 'the name is sliced / truncated (%s): keys that agree on the kept part share one entry' % render(t)[:60]
+                    elif t[0] in ('attr', 'tuple', 'kw', 'star', 'phi', 'bin', 'fstr'):
+                        continue
+                    else:
+                        bad = 'unrecognised step %s' % t[0]
+                    if bad:
+                        break
+            ctx.ob('A-FNAME', '%s._fname path %d' % (lab, n), bad is None)
+            if bad:
+                ctx.fail('A-FNAME', mq(ci, '_fname'), bad[:70], '%s._fname: %s' % (lab, bad), wh(ci, o.line or fi.node.lineno), render_path(o))
+        if n == 0:
+            raise AnalysisError('%s._fname has no return path' % lab)
